@@ -154,7 +154,7 @@ func (fr *Frame) unknownCallFn(ins ssa.Instruction, fn *ssa.Function, args []Val
 		fr.touch(c, s)
 	}
 	nst := havocState(fr.ctx, st, "call "+key, func(comp string) havocSpec {
-		if ms.has(comp) {
+		if ms.has(strings.TrimPrefix(comp, "N|")) {
 			return havocSpec{mode: hvAll}
 		}
 		return havocSpec{mode: hvNone}
@@ -398,20 +398,18 @@ func (fr *Frame) applyContract(ins ssa.Instruction, con *Contract, fn *ssa.Funct
 	nst := st
 	if len(mods) > 0 || !con.Pure {
 		nst = havocState(fr.ctx, st, "call "+con.Key, func(comp string) havocSpec {
-			ms, ok := byComp[comp]
+			ms, ok := byComp[strings.TrimPrefix(comp, "N|")]
 			if !ok {
 				return havocSpec{mode: hvNone}
 			}
-			hs := havocSpec{mode: hvRefs}
 			for _, m := range ms {
 				if m.ref == "" {
 					return havocSpec{mode: hvAll}
 				}
-				hs.refs = append(hs.refs, m.ref)
 			}
-			return hs
+			return havocSpec{mode: hvNone} // listed rows are overwritten below
 		}, !con.Pure)
-		// hvRefs via stores (no quantifier): override resolve by precomputing
+		// listed (component, ref) pairs: arbitrary new value at that row, everything else unchanged
 		for comp, ms := range byComp {
 			all := false
 			for _, m := range ms {
@@ -423,13 +421,11 @@ func (fr *Frame) applyContract(ins ssa.Instruction, con *Contract, fn *ssa.Funct
 				continue
 			}
 			srt := ms[0].sort
-			cur := fr.ctx.get(st, comp, srt)
 			for _, m := range ms {
 				elemSort := strings.TrimSuffix(strings.TrimPrefix(srt, "(Array Int "), ")")
 				fv := fr.ctx.freshConst("hv", elemSort)
-				cur = store(cur, m.ref, fv)
+				nst = fr.wrFrom(nst, st, comp, srt, m.ref, fv)
 			}
-			nst = nst.with(comp, fr.nameTerm(cur, comp, srt))
 		}
 	}
 	// results
@@ -511,7 +507,7 @@ func isScalarKind(k Kind) bool {
 func allScalar(args []Val) bool {
 	for _, a := range args {
 		switch a.K {
-		case KInt, KBool, KStr:
+		case KInt, KBool, KStr, KRef:
 		default:
 			return false
 		}
@@ -635,6 +631,9 @@ func (fr *Frame) ret(ins ssa.Instruction, st *State, reach Term, results []Val) 
 	}
 	sortStrings(comps)
 	for _, comp := range comps {
+		if strings.HasPrefix(comp, "N|") {
+			continue // objects allocated by this function are not constrained by the frame
+		}
 		t := fr.frameTermFor(comp, fr.touched[comp], st)
 		if t == "" {
 			continue
@@ -745,24 +744,23 @@ func (fr *Frame) copyBuiltin(ins ssa.Instruction, dst, src Val, st *State, reach
 		n := fr.nameTerm(ite(le(dst.Len, app("slen", src.A)), dst.Len, app("slen", src.A)), "ncopy", "Int")
 		comp := "E:uint8"
 		srt := arr2Sort("Int")
-		a := fr.ctx.get(st, comp, srt)
+		drow := fr.rd(st, comp, srt, dst.A)
 		na := fr.ctx.freshConst("copied", arrSort("Int"))
-		fr.ctx.assert(fmt.Sprintf("(forall ((i! Int)) (! (= (select %s i!) (ite (and (<= %s i!) (< i! (+ %s %s))) (sbyte %s (- i! %s)) (select (select %s %s) i!))) :pattern ((select %s i!))))",
-			na, dst.Off, dst.Off, n, src.A, dst.Off, a, dst.A, na), "copy from string")
-		fr.touch(comp, srt)
-		return Val{K: KInt, T: intT, A: n}, st.with(comp, fr.nameTerm(store(a, dst.A, na), comp, srt))
+		fr.ctx.assert(fmt.Sprintf("(forall ((i! Int)) (! (= (select %s i!) (ite (and (<= %s i!) (< i! (+ %s %s))) (sbyte %s (- i! %s)) (select %s i!))) :pattern ((select %s i!))))",
+			na, dst.Off, dst.Off, n, src.A, dst.Off, drow, na), "copy from string")
+		return Val{K: KInt, T: intT, A: n}, fr.wr(st, comp, srt, dst.A, na)
 	}
 	n := fr.nameTerm(ite(le(dst.Len, src.Len), dst.Len, src.Len), "ncopy", "Int")
 	et := dst.T.Underlying().(*types.Slice).Elem()
 	for _, sc := range fr.v.leafComps(et) {
 		comp := "E:" + typeName(et) + sc.suffix
 		srt := arr2Sort(sc.sort)
-		a := fr.ctx.get(st, comp, srt)
+		drow := fr.rd(st, comp, srt, dst.A)
+		srow := fr.rd(st, comp, srt, src.A)
 		na := fr.ctx.freshConst("copied", arrSort(sc.sort))
-		fr.ctx.assert(fmt.Sprintf("(forall ((i! Int)) (! (= (select %s i!) (ite (and (<= %s i!) (< i! (+ %s %s))) (select (select %s %s) (+ (- i! %s) %s)) (select (select %s %s) i!))) :pattern ((select %s i!))))",
-			na, dst.Off, dst.Off, n, a, src.A, dst.Off, src.Off, a, dst.A, na), "copy")
-		fr.touch(comp, srt)
-		st = st.with(comp, fr.nameTerm(store(a, dst.A, na), comp, srt))
+		fr.ctx.assert(fmt.Sprintf("(forall ((i! Int)) (! (= (select %s i!) (ite (and (<= %s i!) (< i! (+ %s %s))) (select %s (+ (- i! %s) %s)) (select %s i!))) :pattern ((select %s i!))))",
+			na, dst.Off, dst.Off, n, srow, dst.Off, src.Off, drow, na), "copy")
+		st = fr.wr(st, comp, srt, dst.A, na)
 	}
 	return Val{K: KInt, T: intT, A: n}, st
 }
@@ -783,6 +781,7 @@ func (fr *Frame) appendBuiltin(ins ssa.Instruction, s, t Val, st *State, reach T
 	c.assert(eq(inplace, and(not(eq(s.A, "0")), le(add(s.Len, n), s.Cap))), "append in place?")
 	newRef := st.nxt
 	nst := st.withNxt(fr.bumpNxt(st.nxt))
+	fr.v.knownNonNil[newRef] = true
 	res := Val{K: KSlice, T: s.T}
 	res.A = c.freshConst("app.ref", "Int")
 	res.Off = c.freshConst("app.off", "Int")
@@ -795,21 +794,22 @@ func (fr *Frame) appendBuiltin(ins ssa.Instruction, s, t Val, st *State, reach T
 	for _, sc := range fr.v.leafComps(et) {
 		comp := "E:" + typeName(et) + sc.suffix
 		srt := arr2Sort(sc.sort)
-		a := c.get(st, comp, srt)
 		na := c.freshConst("appended", arrSort(sc.sort))
 		var srcAt func(k Term) Term
 		if t.K == KStr {
 			srcAt = func(k Term) Term { return app("sbyte", t.A, k) }
 		} else {
-			srcAt = func(k Term) Term { return sel(sel(a, t.A), add(t.Off, k)) }
+			srow := fr.rd(st, comp, srt, t.A)
+			srcAt = func(k Term) Term { return sel(srow, add(t.Off, k)) }
 		}
-		oldArr := sel(a, s.A)
+		oldArr := fr.rd(st, comp, srt, s.A)
 		inPlaceVal := ite(and(le(add(s.Off, s.Len), "i!"), lt("i!", add(add(s.Off, s.Len), n))), srcAt(sub("i!", add(s.Off, s.Len))), sel(oldArr, "i!"))
 		freshVal := ite(and(le("0", "i!"), lt("i!", s.Len)), sel(oldArr, add(s.Off, "i!")),
 			ite(and(le(s.Len, "i!"), lt("i!", add(s.Len, n))), srcAt(sub("i!", s.Len)), zeroTermOf(fr.v, c, sc)))
 		c.assert(fmt.Sprintf("(forall ((i! Int)) (! (= (select %s i!) %s) :pattern ((select %s i!))))", na, ite(inplace, inPlaceVal, freshVal), na), "append contents")
-		fr.touch(comp, srt)
-		nst = nst.with(comp, fr.nameTerm(store(a, res.A, na), comp, srt))
+		// in place: row of s's backing array; otherwise: row of the fresh array
+		nst = fr.wrFrom(nst, st, comp, srt, s.A, ite(inplace, na, oldArr))
+		nst = fr.wrFrom(nst, nst, comp, srt, newRef, ite(inplace, fr.rd(nst, comp, srt, newRef), na))
 	}
 	return res, nst
 }
@@ -838,4 +838,9 @@ func blockReaches(from, to *ssa.BasicBlock) bool {
 		stack = append(stack, b.Succs...)
 	}
 	return false
+}
+
+// wrFrom writes a row into state dst (rows are read relative to dst); kept separate for clarity at call sites.
+func (fr *Frame) wrFrom(dst, _ *State, comp, srt string, ref Term, row Term) *State {
+	return fr.wr(dst, comp, srt, ref, row)
 }
